@@ -25,7 +25,7 @@ ORDER = []
 
 
 class LoopSpec:
-    def __init__(self, invariant=None, havoc=(), variant=None, ghost_pre=None, ghost_post=None, havoc_kinds=None, label=None, instances=None, ghost_init=None, yields_kind=None):
+    def __init__(self, invariant=None, havoc=(), variant=None, ghost_pre=None, ghost_post=None, havoc_kinds=None, label=None, instances=None, ghost_init=None, yields_kind=None, skip_when_empty=False):
         self.invariant = invariant or {}        # {label: lambda}
         self.havoc = list(havoc)                # heap paths written by the loop (locals are found syntactically)
         self.variant = variant                  # lambda -> int term, must decrease and be >= 0
@@ -35,6 +35,7 @@ class LoopSpec:
         self.label = label
         self.yields_kind = yields_kind          # generator functions: kind of the yielded values (the yield list becomes symbolic in the loop)
         self.ghost_init = ghost_init            # fn(ip, frame, env) run once before the invariant is first checked (library-contract instantiations)
+        self.skip_when_empty = skip_when_empty  # for-loops: fork on an empty sequence instead of cutting (no havoc then)
         self.instances = instances              # fn(env) -> [ {skolem name: value} ]: further instances of the (universally valid) invariant assumed at the loop head
 
 
@@ -64,6 +65,8 @@ class Contract:
         self.known = d.get('known', {})
         self.trusted = d.get('trusted', False)        # contract only assumed (never verified): listed as such
         self.max_paths = d.get('max_paths', 4000)
+        self.constructs = d.get('constructs', False)  # __init__ contracts: at modular call sites the new object is a fresh symbolic object
+        self.effect = d.get('effect')                 # trusted summaries only: fn(ip, argmap) ghost/event code run at modular call sites after the havoc
         self.finish = d.get('finish')                 # fn(ip, env) ghost code run at exit before clauses
         self.doc = (cls.__doc__ or '').strip()
         self._loop_nodes = None
